@@ -42,3 +42,20 @@ spec fn valid_date(y: int, m: int, d: int) -> bool {
         hours <= 23, minutes <= 59,        // time_hour / time_minute ranges (K2)
     ensures
         r as int == (if sign == 0x2b { 1int } else { -1int }) * (hours as int * 60 + minutes as int),
+
+//@ proof offset_doc before 0 /sign \* \(hours as i16 \* 60 \+ minutes as i16\)/
+    proof {
+        assert(sign == 1 || sign == -1);
+        let m = hours as int * 60 + minutes as int;
+        assert(0 <= m <= 1439);
+        assert(sign as int * m == (if sign == 1 { m } else { -m })) by (nonlinear_arith)
+            requires sign == 1 || sign == -1;
+    }
+
+//@ proof offset_standalone before 0 /let total_minutes = /
+    proof {
+        let m = hours as int * 60 + minutes as int;
+        assert(0 <= m <= 1439);
+        assert(sign as int * m == (if sign == 1 { m } else { -m })) by (nonlinear_arith)
+            requires sign == 1 || sign == -1;
+    }
